@@ -1,3 +1,154 @@
-import Econf.Layered
+import Econf.Lemmas.LayeredLemmas
+
+/-!
+  C12 — all layered-read entry points agree with each other and with the history.
+
+  In the model the wrappers are separate functions mirroring their own argument marshalling
+  (`readDirs` allocates a fresh object with the two directories, `readConfig` prepares the
+  caller's object, `readDirsHistory` passes the process-wide drop-in list and no options), so
+  the agreement below is not true by definition.
+-/
+
+set_option linter.unusedSimpArgs false
+
 namespace Econf
+
+def acceptAll : Callback := some (fun _ _ => true)
+
+theorem accepts_acceptAll (k1 k2 : Nat) (p : Str) : accepts acceptAll k1 p = accepts none k2 p := rfl
+
+/-- the history with an always-accepting callback is the history without callback -/
+theorem C12_history_callback (fs : FS) (s : RdState) (usr etc name suffix : Option Str) (delim : Option Str) (comment : Str) :
+    (readDirsHistory { fs := fs, cb := acceptAll } s usr etc name suffix delim comment).2 =
+      (readDirsHistory { fs := fs, cb := none } s usr etc name suffix delim comment).2 := by
+  unfold readDirsHistory
+  exact (readHistory_sim fs acceptAll none accepts_acceptAll s s rfl _ _ _ _ _ _ _ _ (fun _ _ _ => rfl)).1
+
+theorem readConfigCore_callback (fs : FS) (s : RdState) (kf : KeyFile) (name suffix : Option Str) (delim : Option Str) (comment : Str) :
+    (readConfigCore { fs := fs, cb := acceptAll } s kf name suffix delim comment).2 =
+      (readConfigCore { fs := fs, cb := none } s kf name suffix delim comment).2 := by
+  unfold readConfigCore
+  have h := (readHistory_sim fs acceptAll none accepts_acceptAll s s rfl kf.parseDirs name suffix delim comment kf.join kf.python
+    (if kf.confDirs.isEmpty then s.g.confDirs else kf.confDirs) (fun _ _ _ => rfl)).1
+  simp only
+  generalize readHistory { fs := fs, cb := acceptAll } s kf.parseDirs name suffix delim comment kf.join kf.python _ = x1 at h
+  generalize readHistory { fs := fs, cb := none } s kf.parseDirs name suffix delim comment kf.join kf.python _ = x2 at h
+  obtain ⟨t1, r1⟩ := x1
+  obtain ⟨t2, r2⟩ := x2
+  simp only at h ⊢
+  subst h
+  cases r1 with
+  | error e => rfl
+  | ok files => simp only; split <;> rfl
+
+/-- `econf_readDirsWithCallback` with an accepting callback = `econf_readDirs` -/
+theorem C12_dirs_callback (fs : FS) (s : RdState) (usr etc name suffix : Option Str) (delim : Option Str) (comment : Str) :
+    (readDirs { fs := fs, cb := acceptAll } s usr etc name suffix delim comment).2 =
+      (readDirs { fs := fs, cb := none } s usr etc name suffix delim comment).2 := by
+  unfold readDirs
+  have h := readConfigCore_callback fs s { parseDirs := [usr.getD [], etc.getD []] } name suffix delim comment
+  simp only
+  generalize readConfigCore { fs := fs, cb := acceptAll } s _ name suffix delim comment = x1 at h
+  generalize readConfigCore { fs := fs, cb := none } s _ name suffix delim comment = x2 at h
+  obtain ⟨t1, r1⟩ := x1
+  obtain ⟨t2, r2⟩ := x2
+  simp only at h ⊢
+  subst h
+  cases r1 <;> rfl
+
+/-- `econf_readConfigWithCallback` with an accepting callback = `econf_readConfig` -/
+theorem C12_config_callback (fs : FS) (s : RdState) (slot : Option KeyFile) (project usrSubdir name suffix : Option Str)
+    (delim : Option Str) (comment : Str) :
+    (readConfig { fs := fs, cb := acceptAll } s slot project usrSubdir name suffix delim comment).2 =
+      (readConfig { fs := fs, cb := none } s slot project usrSubdir name suffix delim comment).2 := by
+  unfold readConfig
+  simp only
+  have h := readConfigCore_callback fs s (prepareConfig (slot.getD {}) project usrSubdir name).1
+    (prepareConfig (slot.getD {}) project usrSubdir name).2 suffix delim comment
+  generalize readConfigCore { fs := fs, cb := acceptAll } s _ _ suffix delim comment = x1 at h
+  generalize readConfigCore { fs := fs, cb := none } s _ _ suffix delim comment = x2 at h
+  obtain ⟨t1, r1⟩ := x1
+  obtain ⟨t2, r2⟩ := x2
+  simp only at h ⊢
+  subst h
+  cases r1 <;> rfl
+
+/-- the layered read configured with the same two directories (option `PARSING_DIRS=<usr>:<etc>`,
+    no other option) returns what the two-directory read returns, for a non-empty configuration name -/
+theorem C12_dirs_config (ctx : RdCtx) (s : RdState) (kf0 : KeyFile) (usr etc : Str) (project usrSubdir : Option Str)
+    (name : Str) (suffix : Option Str) (delim : Option Str) (comment : Str)
+    (hn : name ≠ []) (hp : kf0.parseDirs = [usr, etc]) (hc : kf0.confDirs = []) (hj : kf0.join = false) (hy : kf0.python = false) :
+    let a := readConfig ctx s (some kf0) project usrSubdir (some name) suffix delim comment
+    let b := readDirs ctx s (some usr) (some etc) (some name) suffix delim comment
+    a.2.1 = b.2.1 ∧
+    (∀ m, (readConfigCore ctx s { parseDirs := [usr, etc] } (some name) suffix delim comment).2 = .ok m → a.2.2 = some m ∧ b.2.2 = some m) := by
+  intro a b
+  simp only [a, b]
+  unfold readConfig readDirs
+  have hne : name.isEmpty = false := by cases name <;> simp_all
+  have hprep : prepareConfig kf0 project usrSubdir (some name) = (kf0, some name) := by
+    unfold prepareConfig
+    simp [hne, hp]
+  simp only [Option.getD_some, hprep]
+  have hcore : readConfigCore ctx s kf0 (some name) suffix delim comment =
+      readConfigCore ctx s { parseDirs := [usr, etc] } (some name) suffix delim comment := by
+    unfold readConfigCore
+    simp only [hp, hc, hj, hy]
+  rw [hcore]
+  generalize readConfigCore ctx s { parseDirs := [usr, etc] } (some name) suffix delim comment = x
+  obtain ⟨t, r⟩ := x
+  cases r with
+  | ok m => exact ⟨rfl, fun m' h => by cases h; exact ⟨rfl, rfl⟩⟩
+  | error e => exact ⟨rfl, fun m h => by cases h⟩
+
+theorem readHistory_nonempty (ctx : RdCtx) (s : RdState) (dirs : List Str) (name suffix delim : Option Str) (comment : Str)
+    (join python : Bool) (confDirs : List Str) (files : List KeyFile)
+    (h : (readHistory ctx s dirs name suffix delim comment join python confDirs).2 = .ok files) : files ≠ [] := by
+  unfold readHistory at h
+  cases delim with
+  | none => cases h
+  | some dl =>
+    cases name with
+    | none => cases h
+    | some nm =>
+      simp only at h
+      generalize (if nm.isEmpty = true then (s, (Except.ok none : Except Err (Option KeyFile)))
+        else readFirst ctx join python dl comment s (mainCandidates dirs nm (dotSuffix (some nm) suffix))) = x at h
+      obtain ⟨t, m⟩ := x
+      cases m with
+      | error e => cases h
+      | ok main =>
+        simp only at h
+        generalize readSeq ctx join python dl comment t _ = y at h
+        obtain ⟨u, r⟩ := y
+        cases r with
+        | error e => cases h
+        | ok drops =>
+          simp only at h
+          by_cases hd : (main.toList ++ drops).isEmpty = true
+          · simp only [hd, if_true] at h; cases h
+          · simp only [hd, Bool.false_eq_true, if_false, Except.ok.injEq] at h
+            subst h
+            intro hh; rw [hh] at hd; simp at hd
+
+/-- the history variant lists the files that are merged: merging the history left to right,
+    skipping a file when a later one has the same name, reproduces the result of the two-directory read -/
+theorem C12_history (ctx : RdCtx) (s : RdState) (usr etc name suffix : Option Str) (delim : Option Str) (comment : Str) :
+    (match (readDirsHistory ctx s usr etc name suffix delim comment).2 with
+     | .ok files => (readDirs ctx s usr etc name suffix delim comment).2.2 = mergeHistory files ∧
+                    (readDirs ctx s usr etc name suffix delim comment).2.1 = .success
+     | .error (e, _) => (readDirs ctx s usr etc name suffix delim comment).2.1 = e) := by
+  unfold readDirsHistory readDirs readConfigCore
+  simp only [List.isEmpty_nil, if_true]
+  have hnz := readHistory_nonempty ctx s [usr.getD [], etc.getD []] name suffix delim comment false false s.g.confDirs
+  generalize readHistory ctx s [usr.getD [], etc.getD []] name suffix delim comment false false s.g.confDirs = x at hnz
+  obtain ⟨t, r⟩ := x
+  cases r with
+  | error eb => obtain ⟨e, b⟩ := eb; rfl
+  | ok files =>
+    simp only
+    cases files with
+    | nil => exact absurd rfl (hnz [] rfl)
+    | cons k ks => exact ⟨rfl, rfl⟩
+
 end Econf
